@@ -210,12 +210,19 @@ Definition wit_endinstant : list (Z * op) :=
 Definition total_cnt (p : out -> bool) (t : list c5_ostep) : Z :=
   fold_left (fun a s => a + c5_cnt p (c5_outs s)) t 0.
 
-Lemma pending_flexible_refuted :
+(* the former finding pending-flexible (fixed in /repo 7c445bb): the downtime stays untriggered, no
+   DowntimeStart, depth 0, and the whole oracle accepts the run *)
+Lemma pending_flexible_fixed :
   c5_wf_run wit_cfg 0 init_full wit_pending = true /\
+  c5_oracle KService (c5_model_trace wit_cfg init_full wit_pending) = [] /\
+  total_cnt c5_is_start (c5_model_trace wit_cfg init_full wit_pending) = 0 /\
   exists s, In s (c5_model_trace wit_cfg init_full wit_pending) /\
-            c5_checked s = false /\ c5_problem s = false /\ c5_chk_add s = false /\ c5_sig_pending s = true /\
-            c5_trig_of 1 (c5_post s) = 1010.
-Proof. split; [vm_compute; reflexivity|]. eexists. split; [left; reflexivity|]. vm_compute. repeat split. Qed.
+            c5_checked s = false /\ c5_problem s = false /\ c5_trig_of 1 (c5_post s) = 0 /\
+            length (filter (dt_in_effect (c5_now s)) (c5_post s)) = 0%nat.
+Proof.
+  split; [vm_compute; reflexivity|]. split; [vm_compute; reflexivity|]. split; [vm_compute; reflexivity|].
+  eexists. split; [left; reflexivity|]. vm_compute. repeat split.
+Qed.
 
 Lemma lost_start_refuted :
   c5_wf_run wit_cfg 0 init_full wit_loststart = true /\
@@ -412,7 +419,7 @@ Lemma add_new_trigger c now id fixed start end_ dur trig_by parent owned f :
   c5_trig_of id post =
     (if c5_inwin now dnew then
        if fixed then Z.max start now
-       else if negb (is_ok (c_kind (fc_base c)) (s_raw (f_st f))) then Z.max (Z.max start now) (f_lsc f) else 0
+       else if s_has_cr (f_st f) && negb (is_ok (c_kind (fc_base c)) (s_raw (f_st f))) then Z.max (Z.max start now) (f_lsc f) else 0
      else 0).
 Proof.
   intros Hnd Hfresh dnew post. unfold post.
@@ -427,7 +434,7 @@ Proof.
             find_dt id ds2 =
               Some (if c5_inwin now dnew then
                       if fixed then set_trig dnew (Z.max start now)
-                      else if negb (is_ok (c_kind (fc_base c)) (s_raw (f_st f)))
+                      else if s_has_cr (f_st f) && negb (is_ok (c_kind (fc_base c)) (s_raw (f_st f)))
                            then set_trig dnew (Z.max (Z.max start now) (f_lsc f)) else dnew
                     else dnew)) as (ds2 & o12 & E & F2).
   { unfold do_dt_add. cbv zeta.
@@ -443,7 +450,7 @@ Proof.
         eexists _, _. split; [reflexivity|exact Hs].
       + eexists _, _. split; [reflexivity|exact F0].
     - (* flexible *)
-      destruct (negb (is_ok (c_kind (fc_base c)) (s_raw (f_st f)))) eqn:Hnok.
+      destruct (s_has_cr (f_st f) && negb (is_ok (c_kind (fc_base c)) (s_raw (f_st f)))) eqn:Hnok.
       + destruct (c5_inwin now dnew) eqn:Hw.
         * pose proof (trigger_dt_self (length ds0) now (f_paused f) id (Z.max (Z.max start now) (f_lsc f)) ds0 dnew Hnd0 F0 Hcan eq_refl) as Hs.
           unfold chain_fuel.
@@ -456,35 +463,34 @@ Proof.
   assert (c5_has id ds2 = true /\ c5_trig_of id ds2 =
             (if c5_inwin now dnew then
                if fixed then Z.max start now
-               else if negb (is_ok (c_kind (fc_base c)) (s_raw (f_st f))) then Z.max (Z.max start now) (f_lsc f) else 0
+               else if s_has_cr (f_st f) && negb (is_ok (c_kind (fc_base c)) (s_raw (f_st f))) then Z.max (Z.max start now) (f_lsc f) else 0
              else 0)) as (G1 & G2).
   { unfold c5_has, c5_trig_of. rewrite F2. split; [reflexivity|].
     destruct (c5_inwin now dnew); [|reflexivity]. destruct fixed; [reflexivity|].
-    destruct (negb (is_ok (c_kind (fc_base c)) (s_raw (f_st f)))); reflexivity. }
+    destruct (s_has_cr (f_st f) && negb (is_ok (c_kind (fc_base c)) (s_raw (f_st f)))); reflexivity. }
   destruct (trig_by =? 0); [split; assumption|].
   destruct (find_dt_add_trigger id trig_by id ds2) as [-> ->]. split; assumption.
 Qed.
 
 Lemma step_check_add c now prev f o :
-  DtInv now f -> c5_wf_step prev (c5_mk c now f o) = true -> c5_sig_pending (c5_mk c now f o) = false ->
+  DtInv now f -> c5_wf_step prev (c5_mk c now f o) = true ->
   c5_chk_add (c5_mk c now f o) = true.
 Proof.
-  intros [Hnd Hlsc] Hwf Hsig. unfold c5_chk_add. destruct o; try reflexivity.
+  intros [Hnd Hlsc] Hwf. unfold c5_chk_add. destruct o; try reflexivity.
   unfold c5_wf_step in Hwf. cbn [c5_mk c5_now c5_op c5_pre] in Hwf.
   apply andb_prop in Hwf. destruct Hwf as [_ Hop]. apply andb_prop in Hop. destruct Hop as [Hfr _].
   cbn [c5_mk c5_op c5_post c5_pre c5_now c5_problem full_step].
   rewrite Hfr. pose proof Hfr as Hfr'. apply negb_true_iff in Hfr'. apply has_false_notin in Hfr'.
   destruct (add_new_trigger c now id fixed start end_ duration trig_by parent owned f Hnd Hfr') as (G1 & G2).
   cbn zeta in G1, G2. rewrite G1, G2. cbn [andb].
-  unfold c5_sig_pending in Hsig. cbn [c5_mk c5_op c5_checked c5_now] in Hsig.
   unfold c5_inwin. cbn [new_dt d_start d_end].
   destruct ((start <=? now) && (now <=? end_)) eqn:Hw; [|destruct fixed; reflexivity].
   destruct fixed.
   - apply Z.eqb_eq. lia.
-  - cbn [negb andb] in Hsig. rewrite <- andb_assoc, Hw, andb_true_r in Hsig. apply negb_false_iff in Hsig.
-    rewrite Hsig. cbn [andb].
-    destruct (negb (is_ok (c_kind (fc_base c)) (s_raw (f_st f)))); [apply Z.eqb_eq; lia|reflexivity].
+  - cbn [andb].
+    destruct (s_has_cr (f_st f) && negb (is_ok (c_kind (fc_base c)) (s_raw (f_st f)))); [apply Z.eqb_eq; lia|reflexivity].
 Qed.
+
 
 (* ------------------------------------------------------------------ check 9: one DowntimeStart per newly triggered downtime *)
 
@@ -685,6 +691,85 @@ Proof.
       rewrite newly_incl; [reflexivity|exact Hnd|apply incl_refl].
 Qed.
 
+
+(* ------------------------------------------------------------------ check 10: OnDowntimeTriggered for everything that became triggered *)
+Definition CmpEv (o : list out) : list dt -> list dt -> Prop :=
+  Forall2 (fun d d' => d_id d' = d_id d /\ (d_trigger d' = d_trigger d \/ In (d_id d) (c5_trig_ids o))).
+
+Lemma CmpEv_add_trigger o pre post p c : CmpEv o pre post -> CmpEv o pre (add_trigger p c post).
+Proof.
+  induction 1; cbn; constructor; [|assumption].
+  destruct ((d_id y =? p) && negb (existsb (Z.eqb c) (d_triggers y))); assumption.
+Qed.
+
+Lemma do_dt_add_CmpEv c now id fixed start end_ dur trig_by parent owned f :
+  let r := do_dt_add c now id fixed start end_ dur trig_by parent owned f in
+  CmpEv (snd r) (f_dts f ++ [new_dt now id fixed start end_ dur parent owned]) (f_dts (fst r)).
+Proof.
+  cbn zeta. unfold do_dt_add. fold (new_dt now id fixed start end_ dur parent owned).
+  set (d := new_dt now id fixed start end_ dur parent owned). set (ds0 := f_dts f ++ [d]).
+  match goal with |- context [let '(ds1, o1) := ?X in _] => remember X as x1 eqn:E1 end.
+  assert (Rtol (snd x1) ds0 (fst x1)) as H1.
+  { subst x1. destruct (negb fixed && s_has_cr (f_st f) && negb (is_ok (c_kind (fc_base c)) (s_raw (f_st f))));
+      [apply trigger_dt_Rtol|apply Rtol_refl]. }
+  clear E1. destruct x1 as [ds1 o1]. cbn [fst snd] in H1.
+  match goal with |- context [let '(ds2, o2) := ?X in _] => remember X as x2 eqn:E2 end.
+  assert (Rtol (snd x2) ds1 (fst x2)) as H2.
+  { subst x2. destruct (find_dt id ds1) as [d1|]; [|apply Rtol_refl].
+    destruct (fixed && dt_can_be_triggered now d1); [|apply Rtol_refl].
+    pose proof (trigger_dt_Rtol (chain_fuel ds1) now (f_paused f) id (Z.max start now) ds1) as Hi.
+    destruct (trigger_dt (chain_fuel ds1) now (f_paused f) id (Z.max start now) ds1) as [dsx ox]. cbn [fst snd] in *.
+    eapply Rtol_mono; [|exact Hi]. intros i Hi'. rewrite trig_ids_app. apply in_or_app. right. exact Hi'. }
+  clear E2. destruct x2 as [ds2 o2]. cbn [fst snd set_dts f_dts] in *.
+  assert (CmpEv (o1 ++ o2 ++ [ODone]) ds0 ds2) as HC.
+  { apply Rtol_cmp. rewrite app_assoc. eapply Rtol_mono; [|eapply Rtol_app; eassumption].
+    intros i Hi. rewrite trig_ids_app. apply in_or_app. left. exact Hi. }
+  destruct (trig_by =? 0); [exact HC|apply CmpEv_add_trigger; exact HC].
+Qed.
+
+Lemma step_check_trigev c now prev f o :
+  DtInv now f -> c5_wf_step prev (c5_mk c now f o) = true -> c5_chk_trigev (c5_mk c now f o) = true.
+Proof.
+  intros [Hnd Hlsc] Hwf. unfold c5_chk_trigev.
+  unfold c5_wf_step in Hwf. cbn [c5_mk c5_now c5_op c5_pre] in Hwf.
+  apply andb_prop in Hwf. destruct Hwf as [Hwf Hop]. apply andb_prop in Hwf. destruct Hwf as [Hwf Hsc].
+  destruct o; cbn [c5_in_scope] in Hsc; try discriminate; cbn [c5_mk c5_pre c5_post c5_outs full_step].
+  - (* result *)
+    destruct (rejected now (f_st f) r) eqn:Hrej.
+    + unfold do_result. rewrite Hrej. cbn [fst snd]. rewrite newly_incl; [reflexivity|exact Hnd|apply incl_refl].
+    + destruct (do_result_shape c now r f Hrej) as (Hd & _ & oa & ob & Ho & _ & _). cbn zeta in Hd, Ho.
+      rewrite Hd, Ho.
+      destruct (negb (is_ok (c_kind (fc_base c)) (r_state r))); cbn [fst snd].
+      * apply (Rtol_trigev _ (f_dts f)); [exact Hnd|reflexivity|]. apply Rtol_cmp.
+        eapply Rtol_mono; [|apply trigger_all_Rtol].
+        intros i Hi. rewrite !trig_ids_app. apply in_or_app. right. apply in_or_app. left. exact Hi.
+      * rewrite newly_incl; [reflexivity|exact Hnd|apply incl_refl].
+  - (* ack read *)
+    pose proof (get_ack_facts now f) as (A1 & _). destruct (get_ack now f) as [[a f'] o']. cbn [fst snd] in *.
+    rewrite A1, newly_incl; [reflexivity|exact Hnd|apply incl_refl].
+  - (* add *)
+    cbn [c5_op c5_mk c5_pre] in Hop. apply andb_prop in Hop. destruct Hop as [Hfr _].
+    apply negb_true_iff in Hfr. apply has_false_notin in Hfr.
+    apply (Rtol_trigev _ (f_dts f ++ [new_dt now id fixed start end_ duration parent owned])).
+    + rewrite ids_app. apply nodup_snoc; assumption.
+    + intros i. unfold c5_trig_of. destruct (Z.eq_dec id i) as [<-|E].
+      * rewrite (find_dt_app_fresh id (f_dts f) (new_dt now id fixed start end_ duration parent owned) Hfr eq_refl). cbn [new_dt d_trigger].
+        destruct (find_dt id (f_dts f)) eqn:F; [|reflexivity]. exfalso. apply find_dt_some in F.
+        destruct F as [F1 F2]. apply Hfr. rewrite <- F2. unfold ids. apply in_map. exact F1.
+      * rewrite (find_dt_app_old i (f_dts f) (new_dt now id fixed start end_ duration parent owned)); [reflexivity|exact E].
+    + apply do_dt_add_CmpEv.
+  - (* remove *)
+    destruct (do_dt_remove_filter now id children r f) as (g & Hg & _).
+    rewrite Hg, newly_incl; [reflexivity|exact Hnd|]. intros x Hx. apply filter_In in Hx. tauto.
+  - (* start timer *)
+    apply (Rtol_trigev _ (f_dts f)); [exact Hnd|reflexivity|]. apply Rtol_cmp. apply start_timer_Rtol.
+  - (* cleanup *)
+    destruct (do_dt_cleanup_filter now id f) as (g & Hg & _).
+    rewrite Hg, newly_incl; [reflexivity|exact Hnd|]. intros x Hx. apply filter_In in Hx. tauto.
+  - (* pause *)
+    cbn [fst snd set_paused f_dts]. rewrite newly_incl; [reflexivity|exact Hnd|apply incl_refl].
+Qed.
+
 (* ------------------------------------------------------------------ all proved checks along a run *)
 
 Lemma same_static_entry a b : c5_same_static a b = true -> d_entry b = d_entry a.
@@ -709,10 +794,10 @@ Proof.
     destruct o; cbn [added_by] in Hd; try destruct Hd as [<-|[]]; try destruct Hd. cbn. lia.
 Qed.
 
-(* every check of the oracle except 10 (OnDowntimeTriggered events) *)
+(* every check of the oracle except 12 (chains beyond the directly chained downtimes) *)
 Definition c5_step_all (k : kind) (s : c5_ostep) : bool :=
   c5_chk_mono s && c5_chk_nolate s && c5_chk_removed s && c5_chk_end s && c5_chk_owned s && c5_chk_cleanup s
-  && c5_chk_result k s && c5_chk_add s && c5_chk_start s && c5_chk_depth s.
+  && c5_chk_result k s && c5_chk_add s && c5_chk_start s && c5_chk_trigev s && c5_chk_depth s.
 
 (* none of the recorded findings' signatures along the run *)
 Fixpoint c5_clean_run (c : fcfg) (f : full) (h : list (Z * op)) : bool :=
@@ -730,7 +815,7 @@ Proof.
   cbn [c5_wf_run] in Hwf. apply andb_prop in Hwf. destruct Hwf as [Hw Hrest].
   cbn [c5_clean_run] in Hcl. apply andb_prop in Hcl. destruct Hcl as [Hsig Hclr].
   apply negb_true_iff in Hsig. unfold c5_sig_any in Hsig.
-  apply orb_false_iff in Hsig. destruct Hsig as [Hsig S3]. apply orb_false_iff in Hsig. destruct Hsig as [S1 S2].
+  apply orb_false_iff in Hsig. destruct Hsig as [S2 S3].
   pose proof (wf_prev_le _ _ _ _ _ Hw) as Hle.
   pose proof (DtInv2_later _ _ _ Hle Hinv) as Hinv'. pose proof Hinv' as (Hi & _ & _).
   constructor.
@@ -739,7 +824,7 @@ Proof.
     destruct (step_checks_removal c now prev f o Hi Hw) as (H3 & H4 & H5 & H6). cbn zeta in H3, H4, H5, H6.
     destruct (step_check_start_inv c now prev f o Hinv' Hw) as (H9 & _). cbn zeta in H9.
     rewrite H1, H2, H3, H4, H5, H6, (step_check_result c now prev f o Hi Hw),
-      (step_check_add c now prev f o Hi Hw S1), (H9 S2 S3), step_check_depth. reflexivity.
+      (step_check_add c now prev f o Hi Hw), (H9 S2 S3), (step_check_trigev c now prev f o Hi Hw), step_check_depth. reflexivity.
   - apply IH with now; [|exact Hrest|exact Hclr]. apply (step_DtInv2 c now prev f o Hinv' Hw S3).
 Qed.
 
